@@ -29,6 +29,10 @@ structure Loop where
   commitsSinceFile : Nat := 0
   protoChecked : Nat := 0
   protoOff : Bool := false
+  /-- a fault was armed for the next commit (C11) -/
+  faultArmed : Bool := false
+  /-- after a commit that returned an I/O error: the state before it (the model holds the state after it) -/
+  ambiguous : Option DBS := none
 
 def Loop.fail (l : Loop) (kind msg : String) : IO Loop := do
   IO.println s!"RESULT {l.cur} {kind} line={l.lineNo} {msg}"
@@ -62,12 +66,35 @@ def stepLine (l : Loop) (line : String) : IO Loop := do
   if l.failed then return l
   let r := stepOp l.st f
   let l := { l with cnt := bump l.cnt (op ++ "/" ++ outcomeClass got) }
+  -- C11: a commit may report an I/O error only when a fault was injected; afterwards the database
+  -- must show exactly the state before or exactly the state after it (resolved at the next dump)
+  if op == "commit" && got == "err:Io" then
+    if !l.faultArmed then
+      return ← l.fail "SPECDIFF" s!"op=[{lhs}] expected=[ok] got=[{got}] (no fault was injected)"
+    else
+      return { l with st := r.st, nOps := l.nOps + 1, ambiguous := some l.st.committed, faultArmed := false,
+                      commitsSinceFile := l.commitsSinceFile + 2, proto := none, protoOff := true }
+  if op == "dump" then
+    match l.ambiguous with
+    | some pre =>
+      let post := dumpBucket l.st.committed [] true
+      let preS := dumpBucket pre [] true
+      if got == post then return { l with ambiguous := none, nOps := l.nOps + 1 }
+      else if got == preS then
+        let t := (f.getD 1 "0").toNat!
+        let st' := { l.st with committed := pre, txs := l.st.txs.map (fun x => if x.id == t then { x with db := pre } else x) }
+        return { l with st := st', ambiguous := none, nOps := l.nOps + 1 }
+      else
+        return ← l.fail "SPECDIFF" s!"op=[{lhs}] expected=[{preS} | {post}] got=[{got}] (after a commit that reported an I/O error)"
+    | none => pure ()
   -- outcome against the specification
   if !(r.allowed.isEmpty || r.allowed.contains got) then
     return ← l.fail "SPECDIFF" s!"op=[{lhs}] expected=[{" | ".intercalate r.allowed}] got=[{got}]"
   let l := { l with st := r.st, nOps := l.nOps + 1 }
   match op with
   | "fhash" => return { l with st := { l.st with lastHash := some got } }
+  | "fault" => return { l with faultArmed := got == "ok" }
+  | "limit" => return { l with faultArmed := (f.getD 1 "inf") != "inf" }
   | "commit" =>
     if got == "ok" then return { l with commitsSinceFile := l.commitsSinceFile + 1 } else return l
   | "open" | "reopen" | "close" => return { l with proto := none, lastFile := none, commitsSinceFile := 0 }
